@@ -23,6 +23,7 @@ CONSTANTS
   ParseMemoAliased = FALSE
   CommaSeparates = FALSE
   RejectDrops = FALSE
+  MayAcceptedSplits = FALSE
   RejAt = {0, 1, 2, 3}
   RejThen = 3
   RejEditAt = {0, 1, 2, 3}
